@@ -1,13 +1,13 @@
 //! The finite signal alphabet. Every atom is a deterministic function of
 //! (atom id, bits per sample, length, channel, block index, seed); all values lie inside the width.
 
-pub const N_ATOMS: usize = 28;
+pub const N_ATOMS: usize = 30;
 
 pub const ATOM_NAMES: [&str; N_ATOMS] = [
     "silence", "dc_max", "dc_min", "dc_one", "alt_maxmin", "alt_minmax", "impulse_first",
     "impulse_mid", "impulse_last", "step", "wrap_ramp", "square64", "sine3.7", "sine100",
     "poly1", "poly2", "poly3", "poly4", "resonator", "noise_lsb", "noise_half", "noise_m2",
-    "noise_full", "heavy_tail", "gated_a", "gated_b", "sine_noise", "square7",
+    "noise_full", "heavy_tail", "gated_a", "gated_b", "sine_noise", "square7", "gated16", "gated24",
 ];
 
 /// Minimal LCG (Knuth MMIX constants); a fixed seed makes each noise atom one particular signal.
@@ -125,6 +125,16 @@ pub fn atom(id: usize, bps: u32, n: usize, ch: usize, block: usize, seed: u64) -
             v.push(clamp(x.round() as i64, bps))
         }),
         27 => (0..n).for_each(|t| v.push(if (t % 7) < 4 { mx } else { mn } as i32)),
+        28 | 29 => {
+            // noise switched on and off every 16 / 24 samples: statistics change faster than the
+            // smallest Rice partition the encoder is allowed to use
+            let half = if id == 28 { 16 } else { 24 };
+            (0..n).for_each(|t| {
+                let on = (t / half) % 2 == 0;
+                let x = rng.sym((mx + 1) / 4);
+                v.push(if on { clamp(x, bps) } else { (t % 3) as i32 - 1 })
+            });
+        }
         _ => panic!("unknown atom {id}"),
     }
     debug_assert_eq!(v.len(), n);
